@@ -374,6 +374,12 @@ func ruleStride(c *eng.Ctx) {
 		if ph, ok := v.(*ssa.Phi); ok && isLoopCarried(ph) {
 			if loopI == nil || loopI == ph {
 				loopI = ph
+				// rotated range loop: the header phi starts at -1 and the index in use is phi+1
+				for _, e := range ph.Edges {
+					if k, isC := eng.ConstInt(e); isC && k == -1 {
+						return eng.PSym("i").Sub(eng.PConst(1)), true
+					}
+				}
 				return eng.PSym("i"), true
 			}
 		}
